@@ -157,6 +157,45 @@ theorem ev_call {F ρ w ty f args fv w1 vs w2 r} (hf : EvS F ρ w f (.ok fv w1))
   obtain ⟨k, rfl, hk'⟩ := succ_of_le hk
   rw [evalG.eq_def]; simp only [h1 k (by omega), h2 k (by omega), h3 k (by omega)]
 
+/-! ### composite literals and field access -/
+
+def EvFS (F : GFile) (ρ : GEnv) (w : GWorld) (fs : List GField) (r : GRes (List (String × GVal))) : Prop :=
+  ∃ m, ∀ k, m ≤ k → evalFieldsG k F ρ w fs = r
+
+theorem evf_nil {F ρ w} : EvFS F ρ w [] (.ok [] w) := by
+  refine ⟨1, fun k hk => ?_⟩
+  obtain ⟨k, rfl, -⟩ := succ_of_le hk
+  rw [evalFieldsG.eq_def]
+
+theorem evf_cons {F ρ w n e rest v w1 vs w2} (h1 : EvS F ρ w e (.ok v w1)) (h2 : EvFS F ρ w1 rest (.ok vs w2)) :
+    EvFS F ρ w (.mk n e :: rest) (.ok ((n, v) :: vs) w2) := by
+  obtain ⟨m1, h1⟩ := h1
+  obtain ⟨m2, h2⟩ := h2
+  refine ⟨max m1 m2 + 1, fun k hk => ?_⟩
+  obtain ⟨k, rfl, hk'⟩ := succ_of_le hk
+  rw [evalFieldsG.eq_def]; simp only [h1 k (by omega), h2 k (by omega)]
+
+/-- what a composite literal of a named type evaluates to, given its evaluated fields -/
+def slitValue (F : GFile) (name : String) (fs : List (String × GVal)) : GVal :=
+  .struct name (match F.structFields name with
+    | some decl => decl.map fun (f, t) => (f, (lookupG fs f).getD (zero F t))
+    | none => fs)
+
+theorem ev_slit_name {F ρ w name fields fs w'} (hf : EvFS F ρ w fields (.ok fs w')) :
+    EvS F ρ w (.slit (.name name) fields) (.ok (slitValue F name fs) w') := by
+  obtain ⟨m, hm⟩ := hf
+  refine ⟨m + 1, fun k hk => ?_⟩
+  obtain ⟨k, rfl, hk'⟩ := succ_of_le hk
+  rw [evalG.eq_def]; simp only [hm k hk', slitValue]
+  cases F.structFields name <;> rfl
+
+theorem ev_field_struct {F ρ w f ty obj n fs v w'} (h : EvS F ρ w obj (.ok (.struct n fs) w'))
+    (hl : lookupG fs f = some v) : EvS F ρ w (.field f ty obj) (.ok v w') := by
+  obtain ⟨m, hm⟩ := h
+  refine ⟨m + 1, fun k hk => ?_⟩
+  obtain ⟨k, rfl, hk'⟩ := succ_of_le hk
+  rw [evalG.eq_def]; simp only [hm k hk', hl]
+
 /-! ### calls -/
 
 /-- what `callG` makes of the result of a function body -/
